@@ -111,11 +111,11 @@ def gcm_spec_out(inp, p):
     ok, fail = [aig.const_bits(0, 32)], [aig.const_bits(0xffffffff, 32)]
     if f in ("enc_detached", "enc_detached_afternm"):
         return ok + c + tag + _cb(AB, 8)
-    if f in ("enc", "enc_inplace"):
+    if f in ("enc", "enc_inplace", "enc_afternm"):
         return ok + c + tag + _cb(ml + AB, 8)
-    if f in ("dec_detached", "dec_detached_inplace"):
+    if f in ("dec_detached", "dec_detached_inplace", "dec_detached_afternm"):
         return ok + [_b(x) for x in inp["msg"]]
-    if f in ("dec", "dec_inplace"):
+    if f in ("dec", "dec_inplace", "dec_afternm"):
         return ok + [_b(x) for x in inp["msg"]] + _cb(ml, 8)
     if f == "dec_verify_only":
         return ok
@@ -157,9 +157,14 @@ def gcm_run(it, entry, inp, p):
             return ret(r) + [_b(x) for x in it.read_buffer(buf, ml + AB)] + [_b(x) for x in it.read_buffer(ln, 8)]
         m = it.new_buffer(ml, "m", False, [0] * ml)
         fill(it, m, inp["msg"])
-        if f == "enc":
+        if f in ("enc", "enc_afternm"):
             c = it.new_buffer(ml + AB, "c", False, [0] * (ml + AB))
-            r = it.call(A("crypto_aead_aes256gcm_encrypt"), [c, ln, m, ml, ad, al, 0, n, k])
+            if f == "enc":
+                r = it.call(A("crypto_aead_aes256gcm_encrypt"), [c, ln, m, ml, ad, al, 0, n, k])
+            else:
+                st = it.new_buffer(512, "ctx", False, [0] * 512)
+                it.call(A("crypto_aead_aes256gcm_beforenm"), [st, k])
+                r = it.call(A("crypto_aead_aes256gcm_encrypt_afternm"), [c, ln, m, ml, ad, al, 0, n, st])
             return ret(r) + [_b(x) for x in it.read_buffer(c, ml + AB)] + [_b(x) for x in it.read_buffer(ln, 8)]
         c = it.new_buffer(ml, "c", False, [0] * ml)
         mac = it.new_buffer(AB, "mac", False, [0] * AB)
@@ -188,6 +193,21 @@ def gcm_run(it, entry, inp, p):
     elif f == "dec_forged_ad":
         j = p["pos"]
         fill(it, Ptr_off(ad, j), [_flip(_b(inp["ad"][j]), p.get("bit", 0))])
+    if f in ("dec_afternm", "dec_detached_afternm"):
+        st = it.new_buffer(512, "ctx", False, [0] * 512)
+        it.call(A("crypto_aead_aes256gcm_beforenm"), [st, k])
+        mo = it.new_buffer(ml, "mout", False, [0x11] * ml)
+        if f == "dec_afternm":
+            cb = it.new_buffer(ml + AB, "c", False, [0] * (ml + AB))
+            fill(it, cb, c + tag)
+            r = it.call(A("crypto_aead_aes256gcm_decrypt_afternm"), [mo, ln, 0, cb, ml + AB, ad, al, n, st])
+            return ret(r) + [_b(x) for x in it.read_buffer(mo, ml)] + [_b(x) for x in it.read_buffer(ln, 8)]
+        cb = it.new_buffer(ml, "c", False, [0] * ml)
+        fill(it, cb, c)
+        mac = it.new_buffer(AB, "mac", False, [0] * AB)
+        fill(it, mac, tag)
+        r = it.call(A("crypto_aead_aes256gcm_decrypt_detached_afternm"), [mo, 0, cb, ml, mac, ad, al, n, st])
+        return ret(r) + [_b(x) for x in it.read_buffer(mo, ml)]
     if f in ("dec_detached", "dec_detached_inplace", "dec_verify_only", "verify_only_forged"):
         cb = it.new_buffer(ml, "c", False, [0] * ml)
         fill(it, cb, c)
@@ -229,7 +249,7 @@ def _gcm_shapes(tier):
     for al in ((1, 16, 17, 33, 65, 112, 113, 224, 225, 449) if tier == "quick" else _GL[1:]):
         q.append(dict(form="enc_detached", mlen=17 if al % 2 else 0, adlen=al))
     for ml, al in ((0, 0), (17, 5), (113, 16), (225, 225)) if tier == "quick" else [(a, b) for a in (0, 1, 16, 33, 113, 225, 337) for b in (0, 5, 16, 113, 225)]:
-        for f in ("enc", "enc_inplace", "enc_detached_afternm", "dec_detached", "dec", "dec_inplace", "dec_detached_inplace", "dec_verify_only", "dec_forged_tag"):
+        for f in ("enc", "enc_inplace", "enc_detached_afternm", "enc_afternm", "dec_afternm", "dec_detached_afternm", "dec_detached", "dec", "dec_inplace", "dec_detached_inplace", "dec_verify_only", "dec_forged_tag"):
             q.append(dict(form=f, mlen=ml, adlen=al))
     for ml in ((1, 17, 113, 225, 449) if tier == "quick" else _GL[1:]):
         q.append(dict(form="dec_verify_only", mlen=ml, adlen=0))
@@ -345,7 +365,7 @@ TARGETS = [
 ]
 
 
-_GCM_ROUTES = {"spec": ("enc_detached", "enc", "enc_detached_afternm", "dec_detached", "dec"),
+_GCM_ROUTES = {"spec": ("enc_detached", "enc", "enc_detached_afternm", "enc_afternm", "dec_afternm", "dec_detached_afternm", "dec_detached", "dec"),
                "forgery": ("dec_forged_tag", "dec_forged_c", "dec_forged_ad", "verify_only_forged", "dec_truncated", "dec_verify_only"),
                "inplace": ("enc_inplace", "dec_inplace", "dec_detached_inplace")}
 for _r, _forms in sorted(_GCM_ROUTES.items()):
